@@ -27,6 +27,7 @@
 -/
 import ASV.Proofs.SerialRecord
 import ASV.Proofs.SerialPre
+import ASV.Proofs.SerialQual
 namespace ASV.C10
 open ASV ASV.Serial
 
@@ -279,5 +280,71 @@ theorem sections_in_coordinate_order_break_it :
   constructor
   · decide
   · decide
+
+/-! ### the text inside the class-specific qualifiers (`ASV/Model/SerialQual.lean`) -/
+
+/-- `_parse_format(fmt, fmt.format(*values)) == values`: the backtracking match of the expression built
+    from the format string returns exactly the values that were formatted, for every format made of
+    `{}` place holders and literal characters and all values that fit it (`fitsFormat`: non-empty, no
+    newline, and free of the character — and of a space, if the format has one there — that follows
+    the place holder in the format).  Values that do not fit can come back split elsewhere
+    (`gene_function_colon_breaks_it`). -/
+theorem parse_format_inverts_format (ts : List Tok) (values : Groups) (h : fitsFormat ts values = true) :
+    rx ts (render ts values) = some values :=
+  rx_render ts values h
+
+/-- the format strings of the code give the item lists used in the model -/
+example : fmtToks "{} ({}) {}: {}".toList = some fmt4 ∧ fmtToks "{} ({}) {}".toList = some fmt3 ∧
+    fmtToks "{} (E-value: {}, bitscore: {}, seeds: {}, tool: {})".toList = some smFmt := by decide +kernel
+
+/-- `_GeneFunctionAnnotation.from_string(str(a)) == a` for every annotation object (`Annot.wf`: what the
+    constructor checks) whose tool has no `)`, whose texts have no newline and whose product has no `:`
+    — or, without product, whose tool and description have no `:` (`Annot.textSafe`).
+    Partial: a description with a colon and no product is outside (known finding KF-C10-gene-function-colon). -/
+theorem gene_function_text_roundtrip_partial (a : Annot) (hw : a.wf = true) (hs : a.textSafe = true) :
+    Annot.fromStr a.toStr = .ok a :=
+  annot_text_roundtrip a hw hs
+
+/-- the `gene_functions` qualifier of a CDS: `add_from_qualifier` on the written strings rebuilds the same
+    annotations in the same order (annotations are distinct: `add` never stores a duplicate), hence the
+    same `gene_kind` and the same second write -/
+theorem gene_functions_qualifier_roundtrip_partial (l : List Annot) (hd : l.Nodup)
+    (h : ∀ a ∈ l, a.wf = true ∧ a.textSafe = true) :
+    annFromQualifier [] ((Q.get? (annQuals l) "gene_functions").getD []) = .ok l := by
+  cases l with
+  | nil => rfl
+  | cons a l =>
+    have := annFromQualifier_roundtrip (a :: l) [] h (by simpa using hd)
+    simpa [annQuals, Q.get?] using this
+
+def smcogAnnotation : Annot := ⟨.other, "smcogs", "SMCOG1000: thing", none⟩
+/-- the theorem's colon hypothesis cannot be dropped, on the model as in the code (KF-C10-gene-function-colon):
+    an smCOG style description comes back as a product and a shorter description -/
+theorem gene_function_colon_breaks_it :
+    smcogAnnotation.wf = true ∧
+    (Annot.fromStr smcogAnnotation.toStr).toOption = some ⟨.other, "smcogs", "thing", some "SMCOG1000"⟩ := by
+  decide +kernel
+
+/-- non-vacuity: with and without product -/
+example : (⟨.core, "rule-based-clusters", "biosynthetic (rule-based-clusters) T1PKS: PKS_KS", some "T1PKS"⟩ : Annot).wf = true ∧
+    (⟨.core, "rule-based-clusters", "biosynthetic (rule-based-clusters) T1PKS: PKS_KS", some "T1PKS"⟩ : Annot).textSafe = true ∧
+    (⟨.transport, "smcogs", "ABC transporter (Score 12.5)", none⟩ : Annot).wf = true ∧
+    (⟨.transport, "smcogs", "ABC transporter (Score 12.5)", none⟩ : Annot).textSafe = true := by decide +kernel
+
+/-- `SecMetQualifier.Domain.from_string(str(d)) == d` (numbers as the text Python writes for them) when the
+    name has neither space nor `(`, the numbers' texts no `,`, the tool no `)` -/
+theorem secmet_domain_text_roundtrip_partial (d : SMDom) (h : d.textSafe = true) : SMDom.fromStr d.toStr = .ok d :=
+  smdom_text_roundtrip d h
+
+/-- the `sec_met_domain` qualifier: domains with distinct names (`add_domains` keeps the first of each name) -/
+theorem secmet_qualifier_roundtrip_partial (ds : List SMDom) (hn : (ds.map (·.name)).Nodup)
+    (h : ∀ d ∈ ds, d.textSafe = true) : smFromQualifier (ds.map SMDom.toStr) = .ok ds := by
+  unfold smFromQualifier
+  rw [smParseAll_roundtrip ds h]
+  simp only [bind, Except.bind, pure, Except.pure]
+  rw [smAdd_distinct ds [] (by simpa using hn)]
+  simp
+
+example : (⟨"PKS_KS", "1.5e-20", "12.5", "25", "rule-based-clusters"⟩ : SMDom).textSafe = true := by decide +kernel
 
 end ASV.C10
